@@ -250,6 +250,15 @@ pub fn history(rng: &mut Rng, c: &Corpus, deep: bool) -> Circuit {
         ops.push(R1Op::AddConst(LAST, ESrc::MulNegGen(k)));
         ops.push(R1Op::IsZero(LAST));
     }
+    // table lookups (the provided power-of-two selection, or an override of it)
+    if rng.chance(1, 8) {
+        ops.push(R1Op::SelectTable {
+            nbits: rng.range(1, 3) as u8,
+            entries: rng.below(3) as u8,
+            index: rng.below(8) as u8,
+            bits: if rng.chance(1, 3) { Mode::Constant } else { Mode::Witness },
+        });
+    }
     // fixed-base history: the same constant base multiplied by a short scalar first and a longer one afterwards
     // (anything precomputed per base and sized by an earlier call shows only then)
     if rng.chance(1, 12) {
@@ -265,6 +274,13 @@ pub fn history(rng: &mut Rng, c: &Corpus, deep: bool) -> Circuit {
     }
     let nd = rng.range(0, 2) as usize;
     let digest_steps = (0..nd).map(|_| rng.usize_below(ops.len())).collect();
+    // last of all (it ends the judged part of the history): an allocation whose value closure fails
+    if rng.chance(1, 15) {
+        ops.push(R1Op::AllocFailing {
+            mode: if rng.chance(1, 2) { Mode::Input } else { Mode::Witness },
+            affine: rng.chance(1, 3),
+        });
+    }
     Circuit {
         ops,
         hints: vec![],
@@ -429,12 +445,33 @@ pub fn adversarial(rng: &mut Rng, c: &Corpus) -> Circuit {
                     ops.push(R1Op::Compress(LAST));
                 }
             }
+            _ if rng.chance(1, 3) => {
+                // first (and only) use of an encoding-state variable is as the right-hand side of an operator
+                let s1 = encoding_value(rng, c, (1, 2));
+                ops.push(R1Op::AllocElem { mode: m(rng), src: esrc(rng, c) });
+                ops.push(R1Op::AllocFq { mode: if rng.chance(1, 2) { Mode::Constant } else { m(rng) }, s: s1 });
+                ops.push(match rng.below(6) {
+                    0 => R1Op::AddAssign(LAST - 1, LAST),
+                    1 => R1Op::SubAssign(LAST - 1, LAST),
+                    2 => R1Op::AddAssignRef(LAST - 1, LAST),
+                    3 => R1Op::SubAssignRef(LAST - 1, LAST),
+                    4 => R1Op::AddRef(LAST - 1, LAST),
+                    _ => R1Op::SubRef(LAST - 1, LAST),
+                });
+            }
             _ if rng.chance(1, 2) => {
                 ops.push(R1Op::AllocUnchecked { offer: offer(rng, c) });
                 ops.push(R1Op::IsEq(ix(rng), LAST));
             }
             _ => {
-                ops.push(R1Op::Add(ix(rng), ix(rng)));
+                let (i, j) = (ix(rng), ix(rng));
+                ops.push(match rng.below(6) {
+                    0 | 1 => R1Op::Add(i, j),
+                    2 => R1Op::AddAssign(i, j),
+                    3 => R1Op::SubAssign(i, j),
+                    4 => R1Op::AddAssignRef(i, j),
+                    _ => R1Op::SubAssignRef(i, j),
+                });
                 ops.push(R1Op::Compress(ix(rng)));
             }
         }
